@@ -75,6 +75,7 @@ def run(tier, seed, rep):
                           dict(definition=d, event=ev, tlc=text, files={"def.rs": files.get(d["id"], "") if d else ""}))
         name, res, consts = mc.result()
         rep.add_model(name, res, consts)
+    evs = [e for e in evs if e.get("op") != "panic"]      # PANIC_FILTER: statistics only (panic events were judged by TLC above)
     rts = [e for e in evs if e["op"] == "rt"]
     rep.cov["programs"] = len(ok_ids)
     rep.cov["evaluations"] = len(rts)
